@@ -226,9 +226,9 @@ func (s *socket) onPacket(data *packet.Packet) {
 			return
 		}
 		socket_log.Debug("got ping")
-		if t := s.pingTimeoutTimer.Load(); t != nil {
-			t.Refresh()
-		}
+		// a new deadline, not a refresh of the old one: a transport upgrade
+		// cancels the pending timer, and a cancelled timer stays cancelled
+		s.resetPingTimeout()
 		s.sendPacket(packet.PONG, nil, nil, nil)
 		s.Emit("heartbeat")
 	case packet.PONG:
